@@ -46,12 +46,10 @@ try:
             os.remove(W + '/purl/tests/demo.rs')
         for pid in pids:
             t0 = time.time()
-            rc, out = sh('./check %s' % pid, cwd=VERIF, e=dict(env, PURL_REPO=W))
+            rc, out = sh('./check %s' % pid, cwd=VERIF, e=dict(env, PURL_REPO=W, VERIF_ISOLATE='1'))
             lines = [l for l in out.split('\n') if l.startswith(('VIOLATION', 'UNDECIDED', 'KNOWN', 'OK', 'V ', 'K ', 'B '))]
             res['checks'][pid] = dict(exit=rc, wall=round(time.time() - t0, 1), lines=[l[:260] for l in lines])
 finally:
     sh('git -C /repo worktree remove --force %s' % W)
     shutil.rmtree(W, ignore_errors=True)
-    # restore the harness crates to /repo
-    sh("sed 's#@REPO@#/repo#' bounded/Cargo.toml.in > bounded/Cargo.toml; sed 's#@REPO@#/repo#' kani/Cargo.toml.in > kani/Cargo.toml", cwd=VERIF)
 print(json.dumps(res, indent=1, ensure_ascii=False))
